@@ -373,7 +373,11 @@ Definition logged_size (c : wcfg) (r : rec) : N := if w_head c then 0 else r_siz
 Definition matching_entries (cs : bool) (rules : list rule) (path : bytes) : list entry :=
   flat_map ru_entries (filter (fun r => path_matches cs path (ru_scope r)) rules).
 
-(* log.Logger.ServeHTTP: result = writer state, returned status, panicked, lines written *)
+(* log.Logger.ServeHTTP: result = writer state, returned status, panicked, lines written.
+   [path] is the path the CLIENT requested: the middleware copies the URL before calling the
+   next handler (preURL) and judges scopes and exceptions on that copy; inner middleware
+   (rewrite, ext, ...) and handlers change r.URL.Path in place, which must not (and in the
+   model cannot) influence which logs get a line — the harness drives such rewrites *)
 Definition log_serve (c : wcfg) (cs : bool) (tbl : list (Z * N)) (ek : N) (rules : list rule)
            (path : bytes) (ops : list wop) (ret : Z) (u : uw) : uw * Z * bool * list line :=
   match find (fun r => path_matches cs path (ru_scope r)) rules with
@@ -443,8 +447,9 @@ Definition ids_of (ls : list line) : list nat := map (fun l => fst (fst l)) ls.
 (* ---- executable statement of the property on observations --------------------------------- *)
 Definition count_id (i : nat) (ls : list line) : nat :=
   length (filter (fun l => Nat.eqb (fst (fst l)) i) ls).
-(* a configured log owes the request one line iff the request is inside its scope and not
-   excepted by ITS OWN except list *)
+(* a configured log owes the request one line iff the request — the path the client asked
+   for, whatever inner directives rewrite it to — is inside its scope and not excepted by ITS
+   OWN except list *)
 Definition owes (cs : bool) (d : directive) (path : bytes) : bool :=
   path_matches cs path (d_scope d) && should_log cs (d_except d) path.
 Fixpoint counts_ok (cs : bool) (ds : list directive) (i : nat) (path : bytes) (ls : list line) : bool :=
@@ -475,13 +480,15 @@ Fixpoint rule_counts_ok (cs : bool) (rs : list rule) (path : bytes) (ls : list l
 Inductive case :=
 (* NewReplacer(request, recorder, empty).Replace(fmt) *)
 | CRepl (fmt : bytes) (e : renv) (obs_panic : bool) (obs : bytes)
-(* log.Logger{Rules, ErrorFunc}.ServeHTTP over the harness's scripted writer and handler:
+(* log.Logger{Rules, ErrorFunc}.ServeHTTP over the harness's scripted writer and handler
+   (which may set r.URL.Path to another path before answering; [path] is the requested one):
    obs = lines (entry id, status, size), committed status of the writer (0 = none), bytes
    delivered, returned status, panicked *)
 | CLog (cs : bool) (rules : list rule) (ek : N) (path : bytes) (ops : list wop) (ret : Z)
        (tbl : list (Z * N)) (obs_lines : list line) (obs_ustatus : Z) (obs_usize : N)
        (obs_ret : Z) (obs_panic : bool)
-(* one HTTP/1.1 request to a running site with the given log directives (+ errors):
+(* one HTTP/1.1 request for [path] to a running site with the given log directives (+ errors;
+   a rewrite / ext directive or the handler may rewrite r.URL.Path: that shows in [e] only):
    obs = status and body length seen by the client, the lines found in the log files
    (directive index, {status}, {size}), and the request-derived tail of each line;
    modelled = false: a gzip directive sits between log and the handler (sizes are those of the
